@@ -286,3 +286,38 @@ def enum_cases(depth, nstart, maxrt, est0, max_sub=3, client=True):
 
     for ops in rec([], 0, depth):
         yield prefix, ops
+
+
+def enum_cases2(depth, cfgs, max_sub=2):
+    """Exhaustive small scope with two sessions on one context (shared send queue): every history
+    of exactly `depth` events; both sessions use the SAME message ids 1,2 (tokens differ)."""
+    prefix = ["ns", "1", "2"] + ["%d,%d,%d,1%s" % (n, rt, 1 if e0 else 0, "" if cl else ",s")
+                                 for (n, rt, e0, cl) in cfgs]
+
+    def rec(ops, nsub, dead, left):
+        if left == 0:
+            yield list(ops)
+            return
+        for k in (0, 1):
+            alpha = []
+            if nsub[k] < max_sub:
+                alpha += ["S%d,c,%d,%d" % (k, nsub[k] + 1, 10001 + 1000 * k + nsub[k]),
+                          "S%d,n,%d,%d" % (k, nsub[k] + 1, 10001 + 1000 * k + nsub[k])]
+            if not dead[k]:
+                for m in range(1, nsub[k] + 1):
+                    alpha += ["A%d,%d" % (k, m), "R%d,%d" % (k, m), "T%d,%d" % (k, m),
+                              "P%d,%d" % (k, 10000 + 1000 * k + m)]
+                alpha += ["U%d" % k, "F%d,1" % k]
+            for a in alpha:
+                ops.append(a)
+                ns2 = list(nsub)
+                d2 = list(dead)
+                if a[0] == "S":
+                    ns2[k] += 1
+                if a[0] == "F" and cfgs[k][3]:
+                    d2[k] = True
+                yield from rec(ops, ns2, d2, left - 1)
+                ops.pop()
+
+    for ops in rec([], [0, 0], [False, False], depth):
+        yield prefix, ops
